@@ -159,6 +159,7 @@ def run_case(case, ctx):
 
     strategies = []
     seen_heads = {}      # id(error) -> set of head positions recovery was invoked for
+    order = []           # the errors in the order they were handed to the strategy
 
     def strategy():
         inner = {"default": None, "skip-line": skip_line, "inject": make_inject()}[strat_name]
@@ -166,6 +167,8 @@ def run_case(case, ctx):
 
         def observed(context, error, default):
             seen_heads.setdefault(id(error), set()).add(context.position)
+            if not order or order[-1] is not error:
+                order.append(error)
             if inner is None:
                 return default(context)       # exactly what error_recovery=True does
             return inner(context, error, default)
@@ -214,6 +217,7 @@ def run_case(case, ctx):
                 if hasattr(s_, "reset"):
                     s_.reset()      # the inject strategy keeps per-parse state
             seen_heads.clear()
+            del order[:]
             out = G.run_parse(parser, text, G.parse_budget(text, cfg) * 2)
             if out.kind == "budget":
                 ctx.fail("recovery-does-not-terminate", parser=who, steps=out.steps, **info)
@@ -226,6 +230,11 @@ def run_case(case, ctx):
                     ctx.fail("error-span-out-of-bounds", parser=who, **info)
                 if member:
                     ctx.fail("recovering-parser-rejects-a-sentence", parser=who, **info)
+                # "or raises the last SyntaxError": the error recovery was attempted for last
+                if order and e is not order[-1]:
+                    ctx.fail("raised-error-is-not-the-last-error", parser=who,
+                             raised_at=e.location.start_position,
+                             errors_at=[x.location.start_position for x in order], **info)
                 ctx.label("recovery-gave-up")
                 continue
             errors = list(parser.errors)
